@@ -20,6 +20,9 @@
 (*                      connection - the sweep-side twin of "kickSendFirst"                         *)
 (*   "sweepNeedsCloud"  the sweep callback gives up (no CloseConnection) when the offline           *)
 (*                      notification fails - the sweep-side twin of "closeNeedsCloud"               *)
+(*   "removeDropsForeignIndex" (in Session!Remove)  removeConnectionLocked deletes the index entry  *)
+(*                      of the connection's client whichever connection it points at (seed r5m1)    *)
+(* LoginLost / LoginHold / LoginResume: connections authenticated for X but not (yet) indexed.       *)
 (* CloseCmd: the disconnect announced by the client (the second call site of CloseConnection).       *)
 (* Emit = "canon": print the histories that reached MaxLevel operations and name connections in     *)
 (* the order of their first use (one representative per renaming of the pre-accepted connections;   *)
@@ -30,7 +33,7 @@ VARIABLE sw
 varsX == <<vars, sw>>
 viewX == <<view, sw>>
 
-NoSweep == [q |-> None, x |-> None]
+NoSweep == [q |-> None, x |-> None, h |-> None]
 
 \* ---- canonical histories
 ConnsOf(e) == (IF "c" \in DOMAIN e THEN {e.c} ELSE {})
@@ -43,13 +46,13 @@ OutX(h) == IF Emit = "canon" /\ Len(h) >= MaxLevel /\ Canon(h) THEN PrintT("BEH 
 \* ---- the sweep in two parts (one stale, authenticated connection: that is where the callback has
 \* an I/O step - the offline notification - before CloseConnection)
 SweepBegin(c) ==
-  /\ "SweepBegin" \in Ops /\ ~Split /\ Go /\ st.kq = None /\ sw.q = None
+  /\ "SweepBegin" \in Ops /\ ~Split /\ Go /\ st.kq = None /\ sw.q = None /\ sw.h = None
   /\ c \in st.reg /\ st.auth[c] # None /\ c \notin st.tcl /\ st.cloud = "up"
   /\ LET t == IF "sweepCloseFirst" \in Faults THEN st
               ELSE [st EXCEPT !.idx = DropIdx(st, c), !.reg = @ \ {c}]
      IN /\ st' = t /\ Record([op |-> "SweepBegin", c |-> c], t)
         /\ ctl' = ctl \cap t.reg
-  /\ sw' = [q |-> c, x |-> st.auth[c]]
+  /\ sw' = [q |-> c, x |-> st.auth[c], h |-> None]
   /\ UNCHANGED <<pc, proved, used, gv, dev>>
 
 \* the callback returns from the notification: SessionManager.CloseConnection(c) (which removes whatever
@@ -83,14 +86,62 @@ TickX(S) ==
 \* connection the server runs CloseConnection itself, the socket is still open on the peer's side; the other
 \* call site of Session!Close (there the read loop ends first: adapter.cleanupConnection -> CloseConnection)
 CloseCmd(c) ==
-  /\ "CloseCmd" \in Ops /\ ~Split /\ Go /\ c \in st.sess /\ c \notin st.tcl /\ c # st.kq /\ c \in st.reg
+  /\ "CloseCmd" \in Ops /\ ~Split /\ Go /\ c \in st.sess /\ c \notin st.tcl /\ c # st.kq /\ c # sw.h /\ c \in st.reg
   /\ LET t == CloseConn(st, c)
      IN /\ st' = t /\ Record([op |-> "Close", c |-> c, how |-> "command"], t)
         /\ ctl' = ctl \cap t.reg
   /\ UNCHANGED <<pc, proved, used, gv, dev, sw>>
 
+\* ---- authenticated but not indexed (round 5).  ServerAuthHandler.HandleHandshake sets ClientID / Authenticated on
+\* the ControlConnection object; the index entry is written later, by handleHandshake's registry section
+\* (GetByClientID, Remove(old), UpdateAuth) - which a tunnel-type handshake never enters (Session!Login with
+\* type "tunnel"), which is skipped when the handshake response cannot be delivered (LoginLost), and which a
+\* slow response write delays (LoginHold .. LoginResume).  Such a connection is registered and bound to X while
+\* clientIDMap[X] points at another connection of X: every removal path must leave that entry alone.
+HsHandler(s, c, X) ==
+  LET a == Handler(s, c, [k |-> "P1", id |-> X, resp |-> None, type |-> "control"])
+  IN IF a.out = "chal" THEN Handler(a.s, c, [k |-> "P2", id |-> X, resp |-> "ValidLatest", type |-> "control"]) ELSE a
+HsEnabled(c, X) == /\ ~Split /\ Go /\ c \in st.sess /\ c \notin st.tcl /\ c # st.kq /\ c # sw.q /\ c # sw.h
+                   /\ X \in st.issued /\ st.nn[c] < MaxNonce /\ AuthOf(st, c) = None
+\* correct control-type login whose success response cannot be written (sendHandshakeResponse fails, handleHandshake
+\* returns before its registry section); the connection itself stays open
+LoginLost(c, X) ==
+  /\ "LoginLost" \in Ops /\ HsEnabled(c, X)
+  /\ LET r == HsHandler(st, c, X)
+         t == ReapAll(r.s)
+     IN /\ r.out = "ok"
+        /\ st' = t /\ Record([op |-> "LoginLost", c |-> c, id |-> X, type |-> "control"], t)
+        /\ ctl' = ctl \cap t.reg
+  /\ proved' = [proved EXCEPT ![c] = @ \cup {X}]
+  /\ UNCHANGED <<pc, used, gv, dev, sw>>
+\* the same login, its read loop held in the write of the success response (a peer that does not drain its socket):
+\* handler done, registry section outstanding; operations of other connections go on
+LoginHold(c, X) ==
+  /\ "LoginHold" \in Ops /\ HsEnabled(c, X) /\ sw.h = None /\ sw.q = None /\ st.kq = None
+  /\ LET r == HsHandler(st, c, X)
+         t == ReapAll(r.s)
+     IN /\ r.out = "ok"
+        /\ st' = t /\ Record([op |-> "LoginHold", c |-> c, id |-> X, type |-> "control"], t)
+        /\ ctl' = ctl \cap t.reg
+  /\ proved' = [proved EXCEPT ![c] = @ \cup {X}]
+  /\ sw' = [sw EXCEPT !.h = c]
+  /\ UNCHANGED <<pc, used, gv, dev>>
+LoginResume ==
+  /\ "LoginHold" \in Ops /\ ~Split /\ Go /\ sw.h # None
+  /\ LET c == sw.h
+         t == ReapAll(UpdAuth(Evict(st, c), c))
+     IN /\ st' = t /\ Record([op |-> "LoginResume", c |-> c], t)
+        /\ ctl' = Ctl("ok", c, "control", t)
+  /\ sw' = [sw EXCEPT !.h = None]
+  /\ UNCHANGED <<pc, proved, used, gv, dev>>
+\* while a login is held no other operation concerns its connection (its read loop is busy; it is not indexed, so
+\* no kick reaches it)
+HeldUntouched == sw.h = None \/ LET e == hist'[Len(hist')] IN ~("c" \in DOMAIN e /\ e.c = sw.h)
+
 InitX == Init /\ sw = NoSweep
-NextX == /\ \/ Next /\ UNCHANGED sw
+NextX == /\ \/ Next /\ UNCHANGED sw /\ HeldUntouched
+            \/ \E c \in ConnS, X \in ClientS : LoginLost(c, X) \/ LoginHold(c, X)
+            \/ LoginResume
             \/ \E c \in ConnS : SweepBegin(c)
             \/ SweepEnd
             \/ \E S \in SUBSET ConnS : TickX(S)
@@ -99,11 +150,11 @@ NextX == /\ \/ Next /\ UNCHANGED sw
 SpecX == InitX /\ [][NextX]_varsX
 
 \* ---- C07 with the sweep window: judged when no kick and no sweep is in flight
-StableX == Stable /\ sw.q = None
+StableX == Stable /\ sw.q = None /\ sw.h = None
 C07InvX == StableX => (LookupSound /\ ClosedGone /\ RemovedClosed)
 C07OneX == StableX => OnePerClient
 \* the sweep evicts completely: no swept connection keeps its session entry (observed right after the sweep,
 \* before any read loop has tidied up)
 SweepComplete == "sweepLeavesSessionEntry" \notin dev
-TypeOKX == TypeOK /\ sw.q \in ConnS \cup {None}
+TypeOKX == TypeOK /\ sw.q \in ConnS \cup {None} /\ sw.h \in ConnS \cup {None}
 =============================================================================
